@@ -238,6 +238,7 @@ package authz
 // contract for now: assumed, listed as such.
 //@ func NewOIDCHandler
 //@   abstractbody
+//@   requires secure_generator: istype(sessionGen, *oidc.randomGenerator)
 //@   modifies heap oidcv1.OIDCConfig.AuthorizationUri, heap oidcv1.OIDCConfig.TokenUri, heap oidcv1.OIDCConfig.JwksConfig, heap oidcv1.OIDCConfig_JwksFetcherConfig.JwksUri, heap oidcv1.LogoutConfig.RedirectUri
 //@   ensures  err_nil: (result1 != nil) == (result0 == nil)
 //@   ensures  handler: result1 == nil ==> HandlerCfg(result0) == cfg && HandlerReady(result0)
